@@ -227,6 +227,43 @@ func checkC15(w *World, r *Report) {
 		}
 		fname := gst.Field(fa.Field).Name()
 		vt := tm.OperandAt(fr, in, st.Val)
+		// a list produced by a helper whose result stays opaque: look at what the helper returns
+		var extra []*Term
+		vt.Walk(func(t *Term) bool {
+			if c, ok := t.V.(*ssa.Call); ok && t.Op == "call" {
+				if callee := w.calleeBody(&c.Call); callee != nil {
+					hfr := tm.Root(callee)
+					for _, b := range callee.Blocks {
+						if ret, ok := b.Instrs[len(b.Instrs)-1].(*ssa.Return); ok {
+							for _, rv := range ret.Results {
+								extra = append(extra, tm.OperandAt(hfr, ret, rv))
+							}
+						}
+					}
+				}
+			}
+			return true
+		})
+		// loop-carried / captured accumulators appear as named cyclic references: unfold them once
+		extra = append([]*Term{vt}, extra...)
+		for i := 0; i < len(extra) && i < 16; i++ {
+			extra[i].Walk(func(t *Term) bool {
+				if t.Op == "rec" {
+					if v, ok := t.V.(ssa.Instruction); ok && v.Parent() != nil {
+						if val, ok := t.V.(ssa.Value); ok {
+							u := tm.Of(tm.Root(v.Parent()), val)
+							if u.Op != "rec" {
+								extra = append(extra, u)
+							}
+						}
+					}
+				}
+				return true
+			})
+		}
+		if len(extra) > 1 {
+			vt = mk("tuple", "", nil, extra...)
+		}
 		vt.Walk(func(t *Term) bool {
 			if !(t.Op == "builtin" && t.Name == "append" && len(t.Args) == 2) {
 				return true
